@@ -363,10 +363,11 @@ class Flybys:
         self.rebound = rebound
 
     def __call__(self, task):
-        order, integ, o, nsteps = task
+        order, integ, o, nsteps = task[:4]
+        sgn = task[4] if len(task) > 4 else 1
         rb.quiet()
         rebound = self.rebound
-        bodies = {"A": dict(m=1e-4, a=1.0, e=0.01, f=0.0), "B": dict(m=1e-4, a=1.03, e=0.01, f=-0.06), "C": dict(m=1e-5, a=3.0, e=0.1, f=1.0), "D": dict(m=3e-5, a=0.5, e=0.3, f=2.0)}
+        bodies = {"A": dict(m=1e-4, a=1.0, e=0.01, f=0.0), "B": dict(m=1e-4, a=1.03, e=0.01, f=-0.06 * sgn), "C": dict(m=1e-5, a=3.0, e=0.1, f=1.0), "D": dict(m=3e-5, a=0.5, e=0.3, f=2.0)}
         sim = rebound.Simulation()
         sim.add(m=1.0)
         for nm in order:
@@ -377,7 +378,7 @@ class Flybys:
             p.vz -= 0.02
             p.y += 0.3
         lattice.apply_options(sim, integ, o)
-        sim.dt = 0.02
+        sim.dt = 0.02 * sgn
         inv0 = invariants(sim)
         worst = [0.0, 0.0, 0.0, 0.0]
         for k in range(nsteps // 50):
@@ -557,12 +558,12 @@ def run(ctx):
     # ---- E close encounters without a collision, moving system
     FI = [("mercurius", {}), ("mercurius", {"safe_mode": 0}), ("trace", {"peri_mode": "PARTIAL_BS"}), ("trace", {"peri_mode": "FULL_BS"}), ("trace", {"peri_mode": "FULL_IAS15"}), ("ias15", {})]
     fnames = ["A", "B", "C"] if quick else ["A", "B", "C", "D"]
-    ft = [(order, integ, o, 2000 if quick else 10000) for integ, o in FI for order in itertools.permutations(fnames)]
+    ft = [(order, integ, o, 2000 if quick else 10000, sgn) for integ, o in FI for order in itertools.permutations(fnames) for sgn in (1, -1)]
     fres = pool.run_tasks(Flybys(rebound), ft, timeout=900, chunk=1)
     for t, r in zip(ft, fres):
-        order, integ, o, nst = t
-        lab = "%s%s, planets added as %s, %d steps through repeated close encounters, moving system" % (integ, o, "".join(order), nst)
-        case = {"flyby": ["".join(order), integ, o]}
+        order, integ, o, nst, sgn = t
+        lab = "%s%s, planets added as %s, %d steps %s through repeated close encounters, moving system" % (integ, o, "".join(order), nst, "forward" if sgn > 0 else "backward")
+        case = {"flyby": ["".join(order), integ, o, sgn]}
         if r[0] != "ok":
             ctx.violation("flyby-run-%s:%s" % (r[0], integ), "%s: %s %s" % (lab, r[0], str(r[1])[-300:]), case)
             continue
